@@ -4,7 +4,7 @@
    Part B is at R: norm='natural' and norm='linalg' return exactly stated positive multiples of those vectors. *)
 From Coq Require Import List Arith Lia PeanoNat ZArith Ring Bool Reals Lra Psatz.
 From TV Require Import Num.Ops Lin.Tab Lin.BigSum TT.Chain Model.ActOne Model.Interface
-  Proofs.ActOneP Proofs.ActOneP2 Proofs.ActOneRP.
+  Proofs.ActOneP Proofs.ActOneP2 Proofs.ActOneP3 Proofs.ActOneRP.
 Import ListNotations.
 
 Lemma map_seq_cons {B} (f : nat -> B) n : map f (seq 0 (S n)) = f O :: map (fun k => f (S k)) (seq 0 n).
@@ -160,6 +160,69 @@ Proof.
   destruct (wf_inb_len Y idx W) as [HI HL].
   rewrite interface_none_left by exact HI. unfold phi_l.
   apply phi_l_nth; auto.
+Qed.
+
+(* ---- general weights (any P, any i), norm=None: the fully contracted vector of either sweep is the weighted sum over
+        all multi-indices, with the weights omega the code contracts each mode with ---- *)
+Lemma Wof_nth Y P i k : k < length Y ->
+  nth k (Wof Y P i) [] = omega K (cn (nth k Y (mk_core 0 0 0 []))) (optnth P k) (optnth i k).
+Proof.
+  intros Hk. unfold Wof.
+  rewrite (nth_indep _ [] ((fun k => omega K (cn (nth k Y (mk_core 0 0 0 []))) (optnth P k) (optnth i k)) O))
+    by (now rewrite map_length, seq_length).
+  rewrite (map_nth (fun k => omega K (cn (nth k Y (mk_core 0 0 0 []))) (optnth P k) (optnth i k))).
+  now rewrite seq_nth.
+Qed.
+Lemma stepL_vstepw G w v : stepL G w v = vstepw K v G w.
+Proof. reflexivity. Qed.
+Lemma iface_l_last Y : forall W v, length W = length Y ->
+  nth (length Y) (iface_l K NormNone v Y W) [] = runw K v Y W.
+Proof.
+  induction Y as [|G Y IH]; intros [|w W] v L; cbn [length] in *; try discriminate; [reflexivity|].
+  rewrite iface_l_cons. cbn [nth runw normalize]. rewrite stepL_vstepw. apply IH. lia.
+Qed.
+Lemma dot_stepR v G w u : dot K v (stepR G w u) (cr1 G) = dot K (vstepw K v G w) u (cr2 G).
+Proof.
+  unfold dot.
+  rewrite (bsum_ext K (cr1 G) _ (fun a => bsum K (cr2 G) (fun b => nth a v 0 * wslice K G w a b * nth b u 0))).
+  2:{ intros a Ha. unfold stepR. rewrite nth_tab by auto. rewrite <- (bsum_mul_l K Rth).
+      apply bsum_ext; intros b Hb. ring. }
+  rewrite (bsum_swap K Rth). apply bsum_ext; intros b Hb.
+  unfold vstepw. rewrite nth_tab by auto. rewrite <- (bsum_mul_r K Rth). reflexivity.
+Qed.
+Lemma dot_iface_r Y : forall W v r, length W = length Y -> chain r Y 1 ->
+  dot K v (hd [] (iface_r K NormNone Y W)) r = nth O (runw K v Y W) 0.
+Proof.
+  induction Y as [|G Y IH]; intros [|w W] v r L C; cbn [length] in *; try discriminate; cbn [chain] in C.
+  - subst r. unfold dot. cbn. ring.
+  - destruct C as [<- C]. rewrite iface_r_cons. cbn [hd normalize runw]. rewrite dot_stepR. apply IH; auto.
+Qed.
+Theorem interface_total Y P i : chain 1 Y 1 ->
+  nth O (nth O (interface K Y P i NormNone false) []) 0 = msum K (shape Y) (fun idx => pw K (Wof Y P i) idx * get K Y idx) /\
+  nth O (nth (length Y) (interface K Y P i NormNone true) []) 0 = msum K (shape Y) (fun idx => pw K (Wof Y P i) idx * get K Y idx).
+Proof.
+  intros C. rewrite !interface_unfold. rewrite <- (mean_w_spec K Rth Y (Wof Y P i) C (Wof_length Y P i)). split.
+  - rewrite <- hd_nth0. unfold mean_w. rewrite <- (dot_iface_r Y (Wof Y P i) [1] 1 (Wof_length Y P i) C).
+    unfold dot. cbn. ring.
+  - rewrite iface_l_last by apply Wof_length. reflexivity.
+Qed.
+
+(* squared distance through the TT algebra: <Y1 - Y2, Y1 - Y2> is the sum over all multi-indices of the squared
+   difference of the entries (any commutative ring; at R this is what accuracy takes the square root of) *)
+Theorem mul_scalar_sub_spec (Y1 Y2 : list (core T)) : 2 <= length Y1 -> chain 1 Y1 1 -> chain 1 Y2 1 -> same_shape Y1 Y2 ->
+  mul_scalar K (sub K Y1 Y2) (sub K Y1 Y2) =
+  msum K (shape Y1) (fun idx => osub K (get K Y1 idx) (get K Y2 idx) * osub K (get K Y1 idx) (get K Y2 idx)).
+Proof.
+  intros Hd C1 C2 HS.
+  assert (HS' : same_shape Y1 (mul_num K Y2 (oopp K 1))) by (apply same_shape_mul_num; exact HS).
+  assert (C : chain 1 (sub K Y1 Y2) 1) by (unfold sub; apply chain_add; auto; apply chain_mul_num; exact C2).
+  assert (S : shape (sub K Y1 Y2) = shape Y1) by (unfold sub; apply shape_add; exact HS').
+  rewrite (mul_scalar_spec K Rth _ _ C C (same_shape_refl _)). rewrite S. apply msum_ext. intros idx Hidx.
+  assert (E : get K (sub K Y1 Y2) idx = osub K (get K Y1 idx) (get K Y2 idx)).
+  { apply (get_sub K Rth); auto.
+    - apply wf_wfo, wfo_chain_inb. auto.
+    - apply wf_wfo, wfo_chain_inb. split; auto. now rewrite (shape_of_same_shape Y1 Y2 HS). }
+  now rewrite E.
 Qed.
 
 (* mean with default weights is the uniform mean of Model/ActOne.v *)
